@@ -177,6 +177,42 @@ def run(ctx):
                 count('unclassified:' + cal, False, b, c, 'panic-capable call %s is in no discharged class' % cal)
             for a in b.asserts:
                 kind, line, from_exp = a
+                if kind == 'overflow-sub':
+                    # unsigned subtraction can underflow (panic in debug builds): each site needs a reason
+                    why = None
+                    if crate == 'sv_parser' and b.name.endswith('::fmt'):
+                        # depth -= 1 on Leave: every Enter arm of the same match does depth += 1 first
+                        for fl, mp, fn, im in sx.crate_fns(ctx.syn, 'sv-parser'):
+                            if fn['name'] != 'fmt' or not (fn['l'] <= line <= fn.get('el', 10 ** 9)):
+                                continue
+                            ms = [n for n in sx.walk(fn['body']) if n.get('k') == 'match']
+                            for mm in ms:
+                                arms_ = mm['arms']
+                                ent = [x for x in arms_ if sx.render(x['pat']).startswith('NodeEvent::Enter(')]
+                                lev = [x for x in arms_ if sx.render(x['pat']).startswith('NodeEvent::Leave(')]
+                                if ent and lev and all('depth += 1' in sx.render(x['body']) or 'skip = ' in sx.render(x['body']) for x in ent) \
+                                        and all(sx.render(x['body']).count('depth -= 1') <= 1 for x in lev):
+                                    incs = sum(1 for x in ent if 'depth += 1' in sx.render(x['body']))
+                                    if incs >= len([x for x in ent if 'skip = ' not in sx.render(x['body'])]):
+                                        why = 'depth is incremented on every counted Enter and decremented only on Leave (events are balanced)'
+                    if crate == 'sv_parser_pp' and b.name.endswith('::origin'):
+                        of = pp.methods.get(('PreprocessedText', 'origin'))
+                        if of is not None:
+                            t_ = sx.render(of['body']).replace(' ', '')
+                            if 'self.origins.get(&Range::new(pos,(pos+1)))' in t_ and '((pos-origin.range.begin)+origin_range.begin)' in t_:
+                                why = 'the segment returned by the 1-byte probe contains pos, so pos >= segment begin'
+                    classes.setdefault('assert-overflow-sub', [0, 0])[0] += 1
+                    r.inst('assert-sub:%s:%d' % (b.name, classes['assert-overflow-sub'][0]), {'site': b.pretty, 'line': line, 'discharged_because': why})
+                    if why is None:
+                        r.fail('%s:%s:assert-overflow-sub' % (crate, b.name.replace(crate + '::', '')), '%s:%s' % (b.file, line),
+                               '%s: unsigned subtraction at line %s can underflow and panic; no structural reason bounds it' % (b.name, line))
+                    continue
+                if kind in ('overflow-mul', 'overflow-shift', 'overflow-neg'):
+                    classes.setdefault('assert-' + kind, [0, 0])[0] += 1
+                    r.inst('assert:%s:%s:%d' % (kind, b.name, line))
+                    r.fail('%s:%s:assert-%s' % (crate, b.name.replace(crate + '::', ''), kind), '%s:%s' % (b.file, line),
+                           '%s: %s check at line %s can panic — no structural discharge' % (b.name, kind, line))
+                    continue
                 if kind in ('overflow', 'ptr'):
                     classes.setdefault('assert-' + kind + '(excluded by kind)', [0, 0])[0] += 1
                     continue
